@@ -143,6 +143,16 @@ fn d28_extend_concat(x: A) -> Vec<i64> { let mut v = vec![x.0]; v.extend(x.3.ite
 fn d29_bool_short_circuit(x: A) -> (bool, i64) { let mut n = 0; let mut bump = || { n += 1; true }; let r = (x.0 > 0 && bump()) || (x.1 > 0 && bump() && bump()); (r, n) }
 fn d30_default_struct(x: A) -> (Rec, bool) { let r = Rec::default(); let s = Rec { items: vec![x.0], ..r.clone() }; (s.clone(), r == Rec::default() && s != r) }
 
+fn e01_iter_next_then_for(x: A) -> (Option<i64>, Vec<i64>, usize) { let mut it = x.3.iter(); let first = it.next().copied(); let mut rest = vec![]; for v in it { rest.push(*v + x.0); } (first, rest, x.3.len()) }
+fn e02_iter_next_twice(x: A) -> (Option<i64>, Option<i64>, Option<i64>, Vec<i64>) { let v = x.3.to_vec(); let mut it = v.iter(); let a = it.next().copied(); let b = it.next_back().copied(); let c = it.next().copied(); let rest: Vec<i64> = it.copied().collect(); (a, b, c, rest) }
+fn e03_try_for_each(x: A) -> (Result<(), i64>, i64) { let mut acc = 0; let r = x.3.iter().try_for_each(|v| if *v < 0 { Err(*v) } else { acc += *v; Ok(()) }); (r, acc) }
+fn take_two(it: &mut std::slice::Iter<'_, i64>) -> i64 { it.next().copied().unwrap_or(0) * 10 + it.next().copied().unwrap_or(0) }
+fn e04_iter_by_mut_ref(x: A) -> (i64, Vec<i64>, Vec<i64>) { let v = x.3.to_vec(); let mut it = v.iter(); let t = take_two(&mut it); let rest: Vec<i64> = it.copied().collect(); (t, rest, v) }
+fn e05_into_iter_next(x: A) -> (Option<i64>, i64, Option<i64>) { let v = x.3.to_vec(); let mut it = v.into_iter(); let a = it.next(); let s: i64 = it.by_ref().take(2).sum(); (a, s, it.next()) }
+fn e06_chars_next(x: A) -> (Option<char>, String, Option<char>) { let mut cs = x.2.chars(); let a = cs.next(); let b = cs.next_back(); let rest: String = cs.collect(); (a, rest, b) }
+fn e07_range_next(x: A) -> (Option<i64>, Vec<i64>) { let mut r = 0..(x.0.clamp(0, 6)); let a = r.next(); (a, r.collect()) }
+fn e08_peekable(x: A) -> (Option<i64>, Option<i64>, Vec<i64>) { let mut it = x.3.iter().copied().peekable(); let p = it.peek().copied(); let a = it.next(); let mut out = vec![]; while let Some(v) = it.next() { if let Some(n) = it.peek() { out.push(v + *n); } else { out.push(v); } } (p, a, out) }
+
 fn main() {
     let avals = [-7i64, -1, 0, 1, 2, 5, 64];
     let bvals = [-3i64, 0, 1, 2];
@@ -163,5 +173,6 @@ fn main() {
          c57_unzip_partition, c58_nested_option, c59_let_else, c60_strip, c61_display_floats, c62_last_rev, c63_assign_ops, c64_bool_ops,
          d01_methods, d02_trait_dispatch, d03_dyn, d04_recursion, d05_iter_mut, d06_while_let, d07_sort_cmp, d08_binding_modes, d09_at_patterns, d10_str_cmp, d11_char_ops, d12_write,
          d13_option_mut, d14_shadow_blocks, d15_tuple_struct, d16_array, d17_nested_closures, d18_fold_tuple, d19_early_return_loop, d20_string_api, d21_int_parse_fmt, d22_slices_eq,
-         d23_result_chain, d24_vec_of_vec, d25_if_let_chain, d26_wrapping_mix, d27_checked_chain, d28_extend_concat, d29_bool_short_circuit, d30_default_struct);
+         d23_result_chain, d24_vec_of_vec, d25_if_let_chain, d26_wrapping_mix, d27_checked_chain, d28_extend_concat, d29_bool_short_circuit, d30_default_struct,
+         e01_iter_next_then_for, e02_iter_next_twice, e03_try_for_each, e04_iter_by_mut_ref, e05_into_iter_next, e06_chars_next, e07_range_next, e08_peekable);
 }
